@@ -11,6 +11,36 @@ sys.path.insert(0, str(Path(__file__).resolve().parent))
 import common  # noqa: E402
 
 
+BOOST_WALL = {"quick": 300, "thorough": 3600}      # seconds of total wall time up to which further rounds are started
+
+
+def extra_rounds(ctx, mod, seed):
+    """source sentinel: if a file the property is anchored in differs from the pinned snapshot (harness/anchors.json) and the first
+    round found nothing, run further rounds of the same generators with fresh seeds while the time budget lasts. Decides nothing by
+    itself; every finding of a further round is an ordinary failing input / disagreement of this run."""
+    import time
+    import sentinel
+    try:
+        changed = sentinel.changed(common.REPO, ctx.pid)
+    except Exception as e:  # noqa
+        ctx.notes.append(f"source sentinel failed: {e!r}")
+        return
+    ctx.counters["sentinel_changed_files"] = len(changed)
+    if not changed:
+        return
+    ctx.notes.append("source sentinel: anchored files differ from the pinned snapshot: " + ", ".join(changed[:12]))
+    first = max(time.time() - ctx.t0, 1.0)
+    # budget: three more times what the first round took (at least a minute), never beyond BOOST_WALL in total
+    limit = min(BOOST_WALL[ctx.tier], time.time() - ctx.t0 + max(3 * first, 60.0))
+    k = 0
+    while not ctx.violations and not ctx.disagreements and time.time() - ctx.t0 + first < limit and k < 12:
+        k += 1
+        ctx.reseed(seed + 7919 * k)
+        mod.run(ctx)
+        ctx.counters["sentinel_extra_rounds"] = k
+    ctx.reseed(seed)
+
+
 def main():
     ap = argparse.ArgumentParser()
     ap.add_argument("pid")
@@ -31,6 +61,7 @@ def main():
         common.build_and_audit(ctx, mod)
         try:
             mod.run(ctx)
+            extra_rounds(ctx, mod, seed)
         except common.EnoughViolations:
             pass
         return common.finish(ctx, mod)
